@@ -83,6 +83,11 @@ def _shapes(tier, t, W, reduced):
             S.add((1, 1, N)); S.add((2, 1, N)); S.add((2, 2, N))
             S.add((big[i % 6], 3, N)); S.add((big[(i + 3) % 6], 2 + (i % 2) * 3, N))
         S.add((8, 8, 8))
+        # block-unroll corners: M and N multiples of 3W with N > 24 (numSIMDCols == 3), and M a multiple of 12
+        n3 = 3 * W * ((24 // (3 * W)) + 1)
+        for K in (2, 3):
+            S.add((3 * W, K, n3)); S.add((3 * W, K, n3 + 1))
+        S.add((12, 2, n3))
     else:
         b = 6 if not reduced else 4
         for M in range(1, b + 1):
